@@ -129,6 +129,11 @@ BufOp ==
              /\ tree' = IF w <= len THEN Consume(tree, w) ELSE IF Methods[m].try THEN tree ELSE [k |-> "gone", limit |-> 0]
      \/ \E p \in (IF "set_limit" \in OpNames THEN LimPaths(tree) ELSE {}), v \in {0, 1, len, len + 2, MAXW} :
           /\ ops' = Append(ops, OpRec("set_limit", "", v, p, <<>>, <<>>, 0, NoSrc)) /\ tree' = SetLim(tree, p, v)
+     \/ \E p \in (IF "advance_at" \in OpNames THEN NodePaths(tree) \ {<<>>} ELSE {}) :
+          LET sl == Len(Flat(SubAt(tree, p))) IN
+          \E n \in {0, 1, sl} :
+            /\ n <= sl
+            /\ ops' = Append(ops, OpRec("advance_at", "", n, p, <<>>, <<>>, 0, NoSrc)) /\ tree' = AdvAt(tree, p, n)
      \/ /\ "into_iter" \in OpNames
         /\ ops' = Append(ops, OpRec("into_iter", "", 0, <<>>, <<>>, <<>>, 0, NoSrc)) /\ tree' = Consume(tree, len)
      \/ \E n \in (IF "iter_nth" \in OpNames THEN {0, 1, len - 1, len, len + 2} ELSE {}) :
